@@ -113,6 +113,12 @@ def _type_of_path(prog, f, path):
         return None
     name, rest = m.group(1), path[m.end():]
     t = None
+    mh = re.match(r"^(\w+?)__\d+__(\w+)$", name)
+    if mh:
+        # a local of a helper evaluated as part of f (the evaluator prefixes it with the activation)
+        g = prog.helper(mh.group(1), f.unit) or prog.func(mh.group(1), f.unit)
+        if g is not None:
+            f, name = g, mh.group(2)
     for prm in f.params:
         if prm["name"] == name:
             t = prm.get("ct") or prm.get("t")
@@ -275,13 +281,6 @@ def _check_path(res, wf, p):
                           "a failed write (n <= 0) does not stop the process: path ends with '%s'" % p.end,
                           wf.loc(e.node), p.describe(wf))
                 return
-    if p.end == "exit" and p.ret() is not None:
-        # R4: what the function reports to its caller must not depend on how write(2) fragmented the data
-        rv = APE.vstr(p.ret())
-        res.check("write(" not in rv, "C20.R4", site(wf, "return-independent-of-fragmentation"),
-                  "the value returned to the caller does not contain a write(2) result",
-                  "the write loop returns %s, a quantity that depends on the size of the last write(2) call: after a short write callers account the wrong number of bytes "
-                  "(offsets and trailer fields differ from the unfragmented run)" % rv[:80], wf.loc(p.events[-1].node), p.describe(wf))
     if p.end == "exit":
         remaining = _sub(total, cur)
         neg = ({k: -v for k, v in remaining[0].items()}, -remaining[1])
@@ -294,6 +293,20 @@ def _check_path(res, wf, p):
             # remaining <= 0 (write(2) never reports more than it was asked for, so < 0 cannot happen)
             if (d == remaining and v <= frozenset((EQ, LT))) or (d == neg and v <= frozenset((EQ, GT))):
                 done = True
+        if p.ret() is not None:
+            # R4: what the function reports to its caller must not depend on how write(2) fragmented the data: it is free of
+            # write(2) results, or it is the number of bytes done (cursor - buf) on a path that has established that nothing
+            # remains - which is `size` (write(2) never reports more than it was asked for)
+            rv = APE.vstr(p.ret())
+            is_done_count = False
+            try:
+                is_done_count = done and _sub(_lin(rv), _sub(cur, ({BUF: 1}, 0))) == ({}, 0)
+            except Exception:
+                pass
+            res.check("write(" not in rv or is_done_count, "C20.R4", site(wf, "return-independent-of-fragmentation"),
+                      "the value returned to the caller does not depend on how write(2) fragmented the data",
+                      "the write loop returns %s, a quantity that depends on the size of the last write(2) call: after a short write callers account the wrong number of bytes "
+                      "(offsets and trailer fields differ from the unfragmented run)" % rv[:80], wf.loc(p.events[-1].node), p.describe(wf))
         res.check(done, "C20.R2", site(wf, "return"),
                   "normal return only when the path implies that nothing remains (buf + size - cursor == 0)",
                   "function returns while %s bytes are not known to be written" % (remaining,),
